@@ -157,12 +157,25 @@ def register(prop):
          "what the receiver's delegate got; non-trivial = >=1 packet assembled; distinct = distinct (configuration, queue profile) tuples",
          assumptions=["the receiver's HandoffQueueDepth is raised so that its own (legitimate) overflow drop does not mask sender-side loss"])
 
+    prop("C12", [dict(scn="C12", quick=300, thorough=30000, wall_quick=120, wall_thorough=2400)],
+         "cluster plans: 2-3 real nodes with compatible swarm configurations (protocol 1-5 i.e. encryption v0/v1 and CRC, keys 16/24/32, optionally two installed keys with different "
+         "primaries per node, compression, label length 0/1/17/255, msgpack time format, node names 1-255 bytes) on a fault-free but fragmenting and reordering network; workload: "
+         "SendBestEffort, SendReliable, SendToAddress, delegate broadcasts, push/pull with delegate user state, UpdateNode with meta 0-512 bytes; payload sizes biased to 0, 1, AES-block "
+         "boundaries, LZW-dictionary boundaries (255-257, 4095-4097 repeated bytes), incompressible data, UDPBufferSize-40..+1, payloads that look like a label header; oracle: every payload "
+         "a delegate receives is byte-identical to one its sender was given for that receiver, each direct message exactly once, MergeRemoteState bytes equal some LocalState, every Members() "
+         "entry (address, port, meta, 6-tuple of versions) equals what its owner announced; non-trivial = >=1 user message delivered; " + FP,
+         assumptions=["C12 has no schedule in its quantifier: it is decided here by composing the complete real send and receive pipelines of real nodes through the simulated (fragmenting) transport under generated configurations"])
+
 NOT_CLAIMED = {}
 
 SIM_NOTE = ("trusted base: Go runtime + testing/synctest fake clock, the harness (scheduler, SimNet, oracles) under /verif/sim; "
             "assumes the guarded yield sites are the relevant preemption points; seeded search, not proof")
 
 META = {
+ "C12": dict(
+    level_text="End-to-end composition of the real send pipeline (compress, CRC, encrypt, label; packet and stream) with the real receive pipeline of another real node through a fragmenting, reordering simulated transport, over seeded configurations and boundary-biased payload sizes; byte-for-byte and exactly-once oracles at the delegates and in Members().",
+    design_ref="DESIGN.md §3 C12", level_note=SIM_NOTE,
+    technique="deterministic simulation: seeded configuration x payload swarm through real nodes over a fragmenting simulated transport, end-to-end byte-equality oracle"),
  "C11": dict(
     level_text="Every packet a real sender assembles from queued broadcasts through each assembly path is measured at the simulated transport against UDPBufferSize and compared, message for message, with what the queue and the delegate handed out and what a real receiver's handlers and delegate saw, over seeded configurations and queue contents incl. >255 piggybacked parts.",
     design_ref="DESIGN.md §3 C11", level_note=SIM_NOTE,
